@@ -52,19 +52,20 @@ type Sched struct {
 	// EarlyFires counts timers fired while some thread was runnable: from then on virtual durations include
 	// scheduling slack, so timeliness may only be judged while it is zero.
 	EarlyFires int
-	Livelock bool
-	Log      []string
+	Livelock   bool
+	Log        []string
 
-	finished chan struct{}
-	wg       sync.WaitGroup
-	maxAdv   int
-	advances int
-	steps    int
-	maxSteps int
-	logOn    bool
-	closed   map[uintptr]bool
-	OnPoint  func() // invariant hook: called at every scheduling point, while every other thread is parked
-	seq      int
+	finished   chan struct{}
+	wg         sync.WaitGroup
+	maxAdv     int
+	advances   int
+	steps      int
+	maxSteps   int
+	logOn      bool
+	closed     map[uintptr]bool
+	switchCost int    // deviation cost of a non-default choice at a point where the running thread cannot continue
+	OnPoint    func() // invariant hook: called at every scheduling point, while every other thread is parked
+	seq        int
 }
 
 // S is the scheduler of the execution in progress (one execution at a time per process).
@@ -74,6 +75,7 @@ var S *Sched
 var Base = time.Date(2030, 1, 1, 0, 0, 0, 0, time.UTC)
 
 type vtimer struct {
+	quiet   bool // never fired early (harness-side timers)
 	when    time.Duration
 	fire    func()
 	stopped bool
@@ -232,11 +234,13 @@ func (s *Sched) pick(me *thread, meAlive bool, at string) *thread {
 			c := 0
 			if curEnabled && i > 0 {
 				c = 1 // switching away from a runnable thread is a preemption
+			} else if i > 0 {
+				c = s.switchCost // the running thread blocked or ended: taking another than the lowest-numbered thread
 			}
 			costs = append(costs, c)
 			labels = append(labels, t.name)
 		}
-		if len(timers) > 0 && s.advances < s.maxAdv {
+		if len(timers) > 0 && !timers[0].quiet && s.advances < s.maxAdv {
 			costs = append(costs, 1) // a timer fires although threads are still runnable ("the others were slow")
 			labels = append(labels, "fire:"+timers[0].label)
 		}
@@ -496,6 +500,35 @@ func Settle() {
 				continue
 			}
 			return false
+		}
+		return true
+	})
+}
+
+// TimerAtQuiet is TimerAt for harness-side time-outs: the timer only fires when no thread can run.
+func TimerAtQuiet(at time.Duration, label string) {
+	if s := S; s != nil {
+		s.mu.Lock()
+		s.addTimer(at-s.now, label, nil).quiet = true
+		s.mu.Unlock()
+	}
+}
+
+// SettleAll blocks the calling thread until every other thread has finished.
+func SettleAll() {
+	s := S
+	if s == nil {
+		return
+	}
+	Point("settle")
+	s.mu.Lock()
+	me := s.cur
+	s.mu.Unlock()
+	BlockUntil("settle-all", func() bool {
+		for _, t := range s.threads {
+			if t != me && !t.done {
+				return false
+			}
 		}
 		return true
 	})
